@@ -15,6 +15,11 @@
 //	rollback        config and manifest of the new revision == the target revision's, unchanged
 //	history-stable  no earlier revision's stored config changes (aliasing between revisions)
 //
+// Two routes reach helm: filled-in action structs (env.World.Exec) and, in cli.go, real `helm install /
+// upgrade / rollback` command lines (the flag named on the command line is "the chosen flag"; pkg/cmd
+// decides which action field it sets). The clauses are the same; classes of the second route carry the
+// prefix "helm CLI:".
+//
 // Don't-care zones: paths where the step's new values carry an explicit null under
 // reuse / reset-then-reuse (helm removes the key from the stored config; "overlay of a null" is not
 // pinned down): accepted as absent or null in the config, and excluded from the probe comparison of
@@ -38,6 +43,7 @@ import (
 )
 
 type caseData struct {
+	Route  string `json:"route,omitempty"` // "" = action structs | "cli" = real helm command lines (cli.go)
 	Seed   int64  `json:"seed"`
 	Driver string `json:"driver"`
 	N      int    `json:"n"`
@@ -45,17 +51,31 @@ type caseData struct {
 }
 
 const relName = "rel"
+const nsName = "ns1"
+
+// route is the way a step reaches helm: filled-in action structs (env.World.Exec) or a helm command
+// line (cli.go). The clauses are the same on both.
+type route struct {
+	Name     string             // "" for the action route; otherwise shown in classes and inputs
+	AnyAgent bool               // the route's requests do not carry the step's agent tag
+	Open     func(w *env.World) // called once with the chain's fresh world
+	Do       func(w *env.World, agent string, si int, st step) (shown string, err error)
+}
+
+var actionRoute = route{}
 
 func init() {
 	core.Register(&core.Prop{
 		ID:    "C13",
 		Level: "exploration",
 		Rule: "seeded chains of 3-8 steps (install, upgrades with each of the four flag modes and with every combination of the three flags (judged by the documented precedence reset > reuse > reset-then-reuse), rollbacks to random earlier revisions, upgrades made to fail by a one-shot 500 so that deployed != last) on memory and Secret storage, over a 4-version chart family whose defaults add/remove/retype keys; per step a random value tree (empty, nulls, type changes). " +
+			"The same clauses judge covering chains run as real helm command lines (pkg/cmd NewRootCmd over HTTP to the simulator, Secret storage): per chain every one of the four flag modes once on a chart version other than the previous step's, plus two upgrades with a random flag choice (combinations included), rollbacks and failing upgrades; the step's values travel as a -f file; counters cli_*. " +
 			"evaluations counts operations. distinct_nontrivial counts distinct chain shapes (sequence of step kinds/modes with outcome and whether values were empty) among chains that contain at least two different flag modes and a rollback.",
 		Assumptions: []string{
 			"the reference rule (expectedConfig, 30 lines, on top of ref.MergeKeep/ApplyDefaults) states the property's sentences",
 			"the simulated API server stores Secrets faithfully (release records go through helm's real Secrets driver)",
 			"a failed upgrade is produced by answering its first resource mutation with 500 once",
+			"on the CLI route the switches --reset-values / --reuse-values / --reset-then-reuse-values of `helm upgrade` are the property's flag choices and `-f file` carries the step's new values",
 		},
 		Gen:            genCases,
 		Run:            run,
@@ -75,6 +95,8 @@ func genCases(seed int64, tier string) []core.Case {
 		drv := []string{"memory", "secrets"}[i%2]
 		out = append(out, core.Case{ID: fmt.Sprintf("chains-%s-%d", drv, i), Data: core.J(caseData{Seed: rng.Int63(), Driver: drv, N: per, Only: -1})})
 	}
+	// the same chains as helm command lines (own generator stream: the cases above stay as they were)
+	out = append(out, genCLICases(rand.New(rand.NewSource(seed*32452843+1013)), tier)...)
 	return out
 }
 
@@ -161,6 +183,8 @@ func genVals(rng *rand.Rand) map[string]any {
 	return gen.Tree(rng, gen.TreeOpts{Keys: keys, Depth: 3, MaxKeys: 4, Nulls: true, Lists: true})
 }
 
+var upgradeModes = []string{"none", "none", "reset", "reuse", "reuse", "rtr", "rtr", "reset+reuse", "reset+rtr", "reuse+rtr", "reset+reuse+rtr"}
+
 func genChain(rng *rand.Rand) []step {
 	n := 3 + rng.Intn(6)
 	steps := []step{{Kind: "install", Chart: rng.Intn(4), Vals: genVals(rng)}}
@@ -169,7 +193,7 @@ func genChain(rng *rand.Rand) []step {
 		if revs >= 2 && rng.Intn(100) < 22 {
 			steps = append(steps, step{Kind: "rollback", ToRev: 1 + rng.Intn(revs)})
 		} else {
-			steps = append(steps, step{Kind: "upgrade", Mode: gen.Pick(rng, []string{"none", "none", "reset", "reuse", "reuse", "rtr", "rtr", "reset+reuse", "reset+rtr", "reuse+rtr", "reset+reuse+rtr"}), Chart: rng.Intn(4), Vals: genVals(rng), Fail: rng.Intn(100) < 15})
+			steps = append(steps, step{Kind: "upgrade", Mode: gen.Pick(rng, upgradeModes), Chart: rng.Intn(4), Vals: genVals(rng), Fail: rng.Intn(100) < 15})
 		}
 		revs++
 	}
@@ -282,6 +306,9 @@ func run(c core.Case, verbose bool) core.Result {
 	env.Quiet()
 	var d caseData
 	core.U(c, &d)
+	if d.Route == "cli" {
+		return runCLI(d, verbose)
+	}
 	var res core.Result
 	for i := 0; i < d.N; i++ {
 		if d.Only >= 0 && d.Only != i {
@@ -290,7 +317,7 @@ func run(c core.Case, verbose bool) core.Result {
 		rng := rand.New(rand.NewSource(d.Seed ^ int64(i+1)*0x9E3779B97F4A7C))
 		fam := genFamily(rng)
 		chain := genChain(rng)
-		runChain(&res, d.Driver, i, fam, chain, verbose)
+		runChain(&res, actionRoute, d.Driver, i, fam, chain, verbose)
 	}
 	return res
 }
@@ -333,8 +360,15 @@ func hasPrefix(paths [][]string, path string) bool {
 
 const maskedClass = "upgrade[reuse]: a default below a table that an earlier stored value had replaced by a non-table (scalar/list/null) does not come back when the new values make the key a table again"
 
-func runChain(res *core.Result, driver string, idx int, fam family, chain []step, verbose bool) {
-	w := env.NewWorld(driver, "ns1")
+func runChain(res *core.Result, rt route, driver string, idx int, fam family, chain []step, verbose bool) {
+	w := env.NewWorld(driver, nsName)
+	if rt.Open != nil {
+		rt.Open(w)
+	}
+	via, pre := "", ""
+	if rt.Name != "" {
+		via, pre = " via the "+rt.Name, rt.Name+": "
+	}
 	model := map[int]revModel{}
 	var done []string
 	stored := map[int]string{} // revision -> config as first observed
@@ -346,7 +380,7 @@ func runChain(res *core.Result, driver string, idx int, fam family, chain []step
 		for v, dm := range fam.Defaults {
 			fs = append(fs, fmt.Sprintf("v%d defaults=%s", v, ref.J(dm)))
 		}
-		return fmt.Sprintf("chain #%d on %s storage: %s | chart family: %s", idx, driver, strings.Join(done, " ; "), strings.Join(fs, " ; "))
+		return fmt.Sprintf("chain #%d on %s storage%s: %s | chart family: %s", idx, driver, via, strings.Join(done, " ; "), strings.Join(fs, " ; "))
 	}
 	for si, st := range chain {
 		agent := fmt.Sprintf("op%d", si)
@@ -363,11 +397,18 @@ func runChain(res *core.Result, driver string, idx int, fam family, chain []step
 		}
 		var fl *sim.Fault
 		if st.Fail {
-			fl = w.Sim.AddFault(&sim.Fault{Match: func(r *sim.Req) bool { return r.Agent == agent && r.Class == "mutation" }, Code: 500, Once: true})
+			fl = w.Sim.AddFault(&sim.Fault{Match: func(r *sim.Req) bool { return (rt.AnyAgent || r.Agent == agent) && r.Class == "mutation" }, Code: 500, Once: true})
 		}
 		var r env.OpResult
-		ch := fam.files(st.Chart).Build()
-		if core.Guard(res, st.String()+" | "+input(), func() { r = w.Exec(agent, relName, opOf(st), ch) }) {
+		shown := ""
+		if core.Guard(res, st.String()+" | "+input(), func() {
+			if rt.Do != nil {
+				shown, r.Err = rt.Do(w, agent, si, st)
+				shown = " `" + shown + "`"
+			} else {
+				r = w.Exec(agent, relName, opOf(st), fam.files(st.Chart).Build())
+			}
+		}) {
 			return
 		}
 		w.Sim.ClearFaults()
@@ -377,7 +418,7 @@ func runChain(res *core.Result, driver string, idx int, fam family, chain []step
 		if r.Err != nil {
 			outcome = "failed"
 		}
-		done = append(done, fmt.Sprintf("%s => %s", st, outcome))
+		done = append(done, fmt.Sprintf("%s%s => %s", st, shown, outcome))
 		after, bad := w.Ledger(relName)
 		if len(bad) > 0 {
 			res.Add("ledger-unreadable", driver, "%v | %s", bad, input())
@@ -394,7 +435,7 @@ func runChain(res *core.Result, driver string, idx int, fam family, chain []step
 			continue
 		}
 		if r.Err != nil && !failed {
-			res.Add("unexpected-op-error", st.Kind+" "+st.Mode+": "+firstWords(r.Err.Error(), 4), "%v | %s", r.Err, input())
+			res.Add("unexpected-op-error", pre+st.Kind+" "+st.Mode+": "+firstWords(r.Err.Error(), 4), "%v | %s", r.Err, input())
 		}
 		rec := ref.Find(after, newRev)
 		got := parseConfig(rec.Config)
@@ -411,7 +452,7 @@ func runChain(res *core.Result, driver string, idx int, fam family, chain []step
 				hasFailed = true
 			}
 		}
-		ctx := kindMode
+		ctx := pre + kindMode
 		if dep != nil && dep.Revision != ref.MaxRev(before) {
 			ctx += " while the last revision is not the deployed one"
 		}
@@ -475,6 +516,10 @@ func runChain(res *core.Result, driver string, idx int, fam family, chain []step
 		ref.Diff(expCfg, got, "", &diffs, &n)
 		res.Stat("config_paths_compared", n)
 		res.Stat("revisions_judged", 1)
+		if rt.Name != "" {
+			res.Stat("cli_revisions_judged", 1)
+			res.Stat("cli_commands:"+kindMode, 1)
+		}
 		if verbose {
 			fmt.Printf("step %d %s => %s: rev %d status %s\n  deployed before: rev %v\n  expected config %s\n  stored config   %s\n", si, st, outcome, newRev, rec.Status, revOf(dep), ref.J(expCfg), rec.Config)
 		}
@@ -505,6 +550,17 @@ func runChain(res *core.Result, driver string, idx int, fam family, chain []step
 		ref.Diff(expEff, pv, "", &diffs, &n)
 		res.Stat("probe_paths_compared", n)
 		res.Stat("probes_parsed", 1)
+		if rt.Name != "" {
+			res.Stat("cli_probes_parsed", 1)
+		}
+		if st.Kind == "upgrade" && !ref.Equal(ref.CanonMap(model[dep.Revision].defaults), ref.CanonMap(fam.Defaults[st.Chart])) {
+			// the steps on which "whose defaults apply" can be told apart at all
+			k := "upgrades_judged_where_deployed_and_new_chart_defaults_differ:" + effMode(st.Mode)
+			if rt.Name != "" {
+				k = "cli_" + k
+			}
+			res.Stat(k, 1)
+		}
 		if verbose {
 			fmt.Printf("  expected effective values %s\n  probe printed             %s\n", ref.J(expEff), ref.J(pv))
 		}
@@ -551,7 +607,7 @@ func runChain(res *core.Result, driver string, idx int, fam family, chain []step
 	}
 	res.Stat("chains", 1)
 	if len(modes) >= 2 && hasRollback {
-		res.Key("%s|%s", driver, strings.Join(shape, " "))
+		res.Key("%s%s|%s", pre, driver, strings.Join(shape, " "))
 		if res.Sample == nil {
 			res.Sample = map[string]any{"driver": driver, "chain": done, "defaults_v0": fam.Defaults[0], "defaults_v1": fam.Defaults[1]}
 		}
@@ -593,6 +649,16 @@ func post(a *core.Agg) string {
 		if a.Stats[k] < min {
 			return fmt.Sprintf("monitor saw too little: %s = %d < %d", k, a.Stats[k], min)
 		}
+	}
+	// CLI route: every flag mode must have been judged on steps where the two candidate default sets differ
+	for _, m := range []string{"none", "reset", "reuse", "rtr"} {
+		k := "cli_upgrades_judged_where_deployed_and_new_chart_defaults_differ:" + m
+		if a.Stats[k] < 8 {
+			return fmt.Sprintf("monitor saw too little: %s = %d < 8", k, a.Stats[k])
+		}
+	}
+	if a.Stats["cli_revisions_judged"] < 100 {
+		return fmt.Sprintf("monitor saw too little: cli_revisions_judged = %d < 100", a.Stats["cli_revisions_judged"])
 	}
 	return ""
 }
